@@ -1,4 +1,4 @@
-From IV Require Export Base.Word Model.NoCrash Model.RateCtlLock.
+From IV Require Export Base.Word Model.NoCrash Model.RateCtlLock Model.StreamTableLock.
 From Coq Require Import ZifyBool.
 
 (* one case per fuzz target: (inputs run, panics recovered in the caller, worker process crashes
@@ -140,4 +140,138 @@ Definition rc_spec_failures (cases : list rc_case) : list (nat * nat) :=
     match l with
     | [] => []
     | c :: tl => match rc_steps_code c with O => go tl (S i) | code => (i, code) :: go tl (S i) end
+    end in go cases 0%nat.
+
+(* ------------------------------------------------------------------------------------------
+   Round 4: outgoing packets whose HEADER disagrees with the binding they are written on, inside a
+   stream life cycle (BindLocalStream / UnbindLocalStream / Close).
+
+   c02life - one case per life-cycle history run against a real interceptor (all 17 configurations):
+   several local streams, writes whose header SSRC is the stream's own, another stream's, the stream's
+   RTX / FEC SSRC, the SSRC of a stream that was unbound, never bound, 0, 0xFFFFFFFF; payload types that
+   are not the stream's; writes on the writer of an unbound stream; Bind / Unbind in between; at the end
+   a well-formed packet on every bound stream, Unbind of every stream, Close.  EVERY call under a
+   watchdog.  A step is (op, status, wf, delivered, bits):
+     op         0 Write   1 BindLocalStream   2 UnbindLocalStream   3 Close
+     status     0 returned, 1 returned an error, 2 panicked, 3 did not return, 4 the process died
+     wf         1 = the packet is well formed: written on the writer of a currently bound stream, header
+                SSRC and payload type are that stream's, ordinary header shape, payload <= 1200 bytes
+     delivered  1 = a next writer was called with this packet (waited for: pacers hand on asynchronously)
+   The property demands: every call returns, nothing panics; an inconsistent packet is rejected with an
+   error or ignored (both fine); a well-formed packet - after whatever came before - is accepted and
+   reaches the next writer ("keeps working for subsequent well-formed packets"). *)
+Definition life_step := (Z * Z * Z * Z * Z)%type.       (* (op, status, wf, delivered, bits): bits = marshalled size of the packet in bits *)
+Definition life_case := (Z * Z * list life_step)%type.  (* (target, burst, steps): burst = size in bits of the target's token bucket
+                                                          (the pacing interceptor's rate limiter), 0 = the target has none *)
+
+(* 1 panic, 2 process crash, 3 hang, 5 well-formed call refused, 6 well-formed packet accepted but never handed on *)
+Definition life_step_code (s : life_step) : nat :=
+  let '(op, st, wf, dl, _) := s in
+  if st =? 4 then 2%nat
+  else if st =? 2 then 1%nat
+  else if st =? 3 then 3%nat
+  else if op =? 0 then
+    if wf =? 1 then (if st =? 0 then (if dl =? 1 then 0%nat else 6%nat) else 5%nat)
+    else if (st =? 0) || (st =? 1) then 0%nat else 5%nat
+  else if st =? 0 then 0%nat else 5%nat.
+
+(* the packet was ACCEPTED although it is at least as large as the token bucket: the known finding F23
+   (KNOWN_FINDINGS.txt, pacing-oversize-head-blocks; C17_oversize_head_blocks_refuted): such a packet is never
+   released and blocks every later one.  Exactly that shape gets its own code 7 (instead of 6): a well-formed
+   packet not handed on AFTER an accepted packet of at least burst bits on a target that has a token bucket. *)
+Definition accepted_oversize (burst : Z) (s : life_step) : bool :=
+  let '(op, st, _, _, bits) := s in (op =? 0) && (st =? 0) && (0 <? burst) && (burst <=? bits).
+
+Fixpoint life_steps_code (burst : Z) (over : bool) (l : list life_step) : nat :=
+  match l with
+  | [] => 0%nat
+  | s :: tl => match life_step_code s with
+               | O => life_steps_code burst (over || accepted_oversize burst s) tl
+               | 6%nat => if over then 7%nat else 6%nat
+               | c => c
+               end
+  end.
+
+Definition life_code (c : life_case) : nat := let '(_, burst, l) := c in life_steps_code burst false l.
+
+Definition life_spec_failures (cases : list life_case) : list (nat * nat) :=
+  let fix go (l : list life_case) (i : nat) :=
+    match l with
+    | [] => []
+    | c :: tl => match life_code c with O => go tl (S i) | code => (i, code) :: go tl (S i) end
+    end in go cases 0%nat.
+
+(* the same, as a proposition (Proofs/StreamTableLockProofs.v: life_code_iff) *)
+Definition life_step_ok (s : life_step) : Prop :=
+  let '(op, st, wf, dl, _) := s in
+  if (op =? 0) && (wf =? 1) then st = 0 /\ dl = 1            (* well-formed packet: accepted and handed on *)
+  else if op =? 0 then st = 0 \/ st = 1                      (* inconsistent packet: ignored or rejected *)
+  else st = 0.                                               (* Bind / Unbind / Close: returns *)
+
+(* c02np - one case per call history on a real gcc.NoOpPacer, driven directly (via 0), through
+   gcc.SendSideBWE.AddStream / RemoveStream (via 1) or through the cc interceptor's BindLocalStream /
+   UnbindLocalStream (via 2), every call under a watchdog, compared with Model/StreamTableLock.v.
+   A step is ((kind, ssrc), (status, res)):
+     kind  0 AddStream(ssrc)  1 RemoveStream(ssrc)  2 Write(header.SSRC = ssrc)  3 SetTargetBitrate  4 Close (last)
+     res   k >= 0: the writer of binding k (the k-th AddStream call) received the packet;
+           -1 ErrUnknownStream;  -2 another error;  -3 no result (not a Write / nothing delivered, no error) *)
+Definition np_obs_step := ((Z * Z) * (Z * Z))%type.
+Definition np_case := (Z * list np_obs_step)%type.
+
+Definition npop_of (k x : Z) : npop :=
+  if k =? 0 then NAdd x else if k =? 1 then NRemove x else if k =? 2 then NWrite x
+  else if k =? 3 then NSetRate else NClose.
+
+Definition npres_matches (r : npres) (st res : Z) : bool :=
+  match r with
+  | RNone => (st =? 0) && (res =? -3)
+  | RDelivered k => (st =? 0) && (res =? k)
+  | RUnknown => (st =? 1) && (res =? -1)
+  end.
+
+Fixpoint np_conforms (s : np) (l : list np_obs_step) : bool :=
+  match l with
+  | [] => true
+  | ((k, x), (st, res)) :: tl =>
+      match np_step WDefer s (npop_of k x) with
+      | NDone s' r => npres_matches r st res && np_conforms s' tl
+      | _ => negb (st =? 0) && negb (st =? 1)
+      end
+  end.
+
+Definition np_mismatches (cases : list np_case) : list nat :=
+  find_idx (fun c => negb (np_conforms np0 (snd c))) cases 0.
+
+(* specification oracle on the implementation's outputs, with the stream table as a plain function
+   (route_step), not the model's association list and without its mutex:
+   1 panic, 2 process crash, 3 hang, 5 a call that must succeed returned an error (a packet of a bound
+   stream refused), 6 a packet of a bound stream did not reach the writer of its stream's latest binding *)
+Definition np_step_code (f : route * Z) (s : np_obs_step) : nat :=
+  let '((k, x), (st, res)) := s in
+  if st =? 4 then 2%nat
+  else if st =? 2 then 1%nat
+  else if st =? 3 then 3%nat
+  else if k =? 2 then
+    match fst f x with
+    | Some b => if st =? 0 then (if res =? b then 0%nat else 6%nat) else 5%nat
+    | None => if (st =? 0) || (st =? 1) then 0%nat else 5%nat
+    end
+  else if st =? 0 then 0%nat else 5%nat.
+
+Fixpoint np_steps_code (f : route * Z) (l : list np_obs_step) : nat :=
+  match l with
+  | [] => 0%nat
+  | s :: tl => match np_step_code f s with
+               | O => np_steps_code (route_step f (npop_of (fst (fst s)) (snd (fst s)))) tl
+               | c => c
+               end
+  end.
+
+Definition np_code (c : np_case) : nat := np_steps_code (fun _ => None, 0) (snd c).
+
+Definition np_spec_failures (cases : list np_case) : list (nat * nat) :=
+  let fix go (l : list np_case) (i : nat) :=
+    match l with
+    | [] => []
+    | c :: tl => match np_code c with O => go tl (S i) | code => (i, code) :: go tl (S i) end
     end in go cases 0%nat.
